@@ -168,8 +168,15 @@ def check(ctx):
                     for (sb, ok_t, fail_t) in lib.result_arms(sp, b):
                         post_fail.append(fail_t)
             rein = []
+            # the slot that holds the callback, by type (its private name may change)
+            try:
+                _ss = prog.adt_by_name("SpawnedSystem")
+                _slots = [f_["name"] for f_ in _ss["variants"][0]["fields"] if f_["ty"].startswith("core::option::Option<") and "CallbackSystem<" in f_["ty"]]
+                slot = _slots[0] if len(_slots) == 1 else "system"
+            except (mir.AnchorLost, KeyError, IndexError):
+                slot = "system"
             for b, i, adt, fld, rv in lib.field_writes(sp, "SpawnedSystem"):
-                if fld == "system" and sp.dominates(r, b):
+                if fld == slot and sp.dominates(r, b):
                     src = rv.get("use")
                     agg = rv.get("agg")
                     okv = False
